@@ -297,9 +297,12 @@ PROPS["C11"] = {
                   "prediction is compared with the real network",
     "level_note": "loops <= 3 (4); sparse identity-like integer weights; multiply for loops <= 2; overwrite with several sources means the last source (what the statement admits)",
     "rule": "one case = one (placement, loops, inskips, outskips, accumulation) per data seed; all distinct; non-trivial = all",
-    "mc": [flow_mc("fb", ["{1, 2, 3, 4, 5, 6, 7, 8}", 1, 1, 3, "{1, 2}", "FALSE"], ["{1, 2, 3, 4, 5, 6, 7, 8}", 1, 1, 4, "{1, 2, 3}", "FALSE"])],
+    "mc": [flow_mc("fb", ["{1, 2, 3, 4, 5, 6, 7, 8, 9, 10}", 1, 1, 3, "{1, 2}", "FALSE"], ["{1, 2, 3, 4, 5, 6, 7, 8, 9, 10}", 1, 1, 4, "{1, 2, 3}", "FALSE"])],
     "assumptions": FLOW_ASSUME,
 }
+
+# C08 inside feedback blocks: the shapes the block announces for its inner layers (read from Display) follow the size formulas
+PROPS["C08"]["mc"].append(flow_mc("fb", ["{2, 4, 7, 9, 10}", 1, 1, 2, "{1}", "FALSE"], ["{1, 2, 3, 4, 5, 6, 7, 8, 9, 10}", 1, 1, 3, "{1}", "FALSE"]))
 
 PROPS["C18"] = {
     "level": "model_checking",
